@@ -25,9 +25,11 @@ add("C18","enum","Exhaustive over the 36 names (parse/print/CLI value list), eve
 
 add("C13","sched","Stateless model checking of the real BER engine: BerTest::run (collector, W workers, result channel, termination channels, joins) runs under a controlled scheduler in which every channel operation, spawn, join and thread exit is a scheduling point; ALL schedules with at most b preemptions are enumerated by DFS per scenario (W<=3, b up to 3-4 for two workers, 2-3 for three), including failure-injection scenarios; every complete execution is judged against a fold over the arrival order read from the scheduler's own log (exact statistics at every report, exact stopping point, joins, final 'finished' report, error instead of hang).","Worker counts > 3 and deeper preemption bounds not explored; drops of channel endpoints are not separate scheduling points; a frame budget bounds how far a worker runs ahead.","stateless preemption-bounded DFS of thread schedules of the real code under a controlled scheduler (CHESS-style iterative context bounding)")
 
+add("C12","enum","Bounded exhaustive over the configuration space of the BER chain with every source of randomness owned by the harness: (4 codes) x (BPSK, 8PSK) x (every puncturing pattern of length <= 6) x (every interleaver column count dividing the frame, both directions) x 4 Eb/N0 x noise streams, ALL messages per run; the LLR vectors the real engine hands to an injected decoder are compared value by value with an independent reference chain.","Gaussianity of the draws is delegated to rand_distr (trusted base); one worker thread.","bounded exhaustive enumeration of configurations with harness-owned RNG, differential comparison against an independent reference chain")
+
 NA = {}
 def na(pid, reason): NA[pid] = reason
-for p in ["C12","C16","C19","C20"]:
+for p in ["C16","C19","C20"]:
     na(p, "check not yet built in this round (work in progress; see DESIGN.md section 5)")
 
 def load_overrides():
